@@ -162,6 +162,11 @@ def o_z0(case):
             wd = wd.astype(int)
     us = rng.uniform(0.15, 0.7, n)
     L = np.where(rng.random(n) < 0.5, -rng.uniform(20, 500, n), rng.uniform(30, 800, n))
+    if case.get("outliers"):
+        # very stable, nearly calm records: the raw inversion gives a finite roughness length of kilometres, which the
+        # function discards (> 1000 m); the smoothing must then go on WITHOUT those records
+        k = rng.choice(n, size=min(case["outliers"], n), replace=False)
+        L[k], us[k], ws[k] = 5.0, 0.4, 1.0
     z0 = estimateZ0(zm, ws, wd, us, L, half_wd_win=0)
     psim = _psiM(zm, L)
     back = us / 0.4 * (np.log(zm / z0) + psim)
@@ -237,7 +242,7 @@ def run(rng, tier, deep):
         p = gen_par(rng)
         run_oracle(st, o_mass, dict(p=p, N=int(rng.integers(25, 75)), res0=float(p["zm"] * 0.8)))
     for _ in range(budget(tier, deep, 10, 100)):
-        run_oracle(st, o_z0, dict(seed=int(rng.integers(1 << 30)), n=int(rng.integers(50, 400)), zm=float(rng.uniform(2, 30)),
+        run_oracle(st, o_z0, dict(outliers=int(rng.choice([0, 0, 1, 3, 8])), seed=int(rng.integers(1 << 30)), n=int(rng.integers(50, 400)), zm=float(rng.uniform(2, 30)),
                                   rho=float(rng.integers(1, 360)), whole_degrees=bool(rng.random() < 0.6), int_wd=bool(rng.random() < 0.5)))
     return finish(st, "physically consistent (zm, z0, ws, ustar, L, sigma_v) with both stabilities, Python int / float / numpy int64 / float32 heights, "
                   "resolutions and extents, receptor positions, wind directions (multiples of 90 degrees exactly, arbitrary pointwise); correspondence of the "
